@@ -8,6 +8,8 @@ import (
 	"path/filepath"
 	"regexp"
 	"strings"
+	"syscall"
+	"time"
 
 	"github.com/aml-org/amf-custom-validator/internal/parser/profile"
 	"github.com/aml-org/amf-custom-validator/internal/validator"
@@ -44,6 +46,46 @@ func runCli(acv string, args ...string) cliRun {
 		}
 	}
 	return cliRun{stdout: out.String(), exit: code}
+}
+
+// runCliStdin: the same with a pipe as standard input (the text is written and the pipe closed).
+func runCliStdin(acv string, stdin string, args ...string) cliRun {
+	cmd := exec.Command(acv, args...)
+	var out, errb bytes.Buffer
+	cmd.Stdout = &out
+	cmd.Stderr = &errb
+	cmd.Stdin = strings.NewReader(stdin)
+	err := cmd.Run()
+	code := 0
+	if err != nil {
+		if ee, ok := err.(*exec.ExitError); ok {
+			code = ee.ExitCode()
+		} else {
+			code = -1
+		}
+	}
+	return cliRun{stdout: out.String(), exit: code}
+}
+
+// feedFifo creates a named pipe and writes text into it once a reader opens it (gives up after 10 s).
+func feedFifo(path, text string) error {
+	os.Remove(path)
+	if err := syscall.Mkfifo(path, 0o644); err != nil {
+		return err
+	}
+	go func() {
+		deadline := time.Now().Add(10 * time.Second)
+		for time.Now().Before(deadline) {
+			f, err := os.OpenFile(path, os.O_WRONLY|syscall.O_NONBLOCK, 0)
+			if err == nil {
+				f.Write([]byte(text))
+				f.Close()
+				return
+			}
+			time.Sleep(5 * time.Millisecond)
+		}
+	}()
+	return nil
 }
 
 func libV(text string, err error) sx.V {
@@ -95,7 +137,7 @@ func setCell(path, kind, content string) {
 // Model.Cli.run evaluated on the library's own answer for the same texts.
 func C18(e *core.Env) {
 	res := e.Res
-	res.Rule = "cases = (subcommand, argument count, profile, data, prior state of the output path) and histories of 2-4 runs into one path; " +
+	res.Rule = "cases = (subcommand, argument count, profile, data, prior state of the output path) and histories of 2-4 runs into one path; PROFILE / DATA given as a named pipe or as /dev/stdin behind a pipe; " +
 		"non-trivial = the command reaches the library and, for file output, the prior content differs from the new report; distinct by (command, profile, data, prior-state kind, history)"
 	acv := filepath.Join(e.Scratch, "acv")
 	build := exec.Command("go", "build", "-o", acv, "./cmd/main.go")
@@ -181,6 +223,48 @@ func C18(e *core.Env) {
 				os.Chmod(outp, 0o644)
 				os.RemoveAll(outp)
 			}
+		}
+	}
+
+	// PROFILE / DATA that are not regular files: a named pipe (what the shell's <(...) gives) and /dev/stdin behind a pipe
+	for _, pd := range [][2]int{{0, 1}, {1, 0}, {2, 2}} {
+		p, d := profiles[pd[0]], datas[pd[1]]
+		pp := filepath.Join(work, "p_"+p.name+".yaml")
+		dp := filepath.Join(work, "d_"+d.name+".jsonld")
+		libText, libErr := validator.Validate(p.text, d.text, false, nil)
+		lib := libV(normDate(libText), libErr)
+		fifo := filepath.Join(work, "in.fifo")
+		variants := []struct {
+			name string
+			run  func() cliRun
+			argv []string
+		}{
+			{"data-fifo", func() cliRun {
+				if feedFifo(fifo, d.text) != nil {
+					return cliRun{exit: -2}
+				}
+				return runCli(acv, "validate", pp, fifo)
+			}, []string{"validate", pp, "<named pipe carrying the data>"}},
+			{"profile-fifo", func() cliRun {
+				if feedFifo(fifo, p.text) != nil {
+					return cliRun{exit: -2}
+				}
+				return runCli(acv, "validate", fifo, dp)
+			}, []string{"validate", "<named pipe carrying the profile>", dp}},
+			{"data-dev-stdin", func() cliRun { return runCliStdin(acv, d.text, "validate", pp, "/dev/stdin") }, []string{"validate", pp, "/dev/stdin  (data piped into standard input)"}},
+		}
+		for _, v := range variants {
+			r := v.run()
+			os.Remove(fifo)
+			if r.exit == -2 {
+				res.Note("named pipes cannot be created here: " + v.name + " skipped")
+				continue
+			}
+			res.Count("input=" + v.name)
+			check("validate-stdout/"+p.name+"/"+d.name+"/"+v.name, libErr == nil,
+				sx.L(sx.A("c18"), sx.A("run"), sx.B(trunc), sx.A("validate"), sx.I(4), sx.B(true), lib, sx.A("absent")),
+				sx.L(sx.A("out"), sx.S(normDate(r.stdout)), sx.I(r.exit), sx.A("absent")),
+				map[string]any{"argv": v.argv, "profile": p.text, "data": d.text, "input_kind": v.name})
 		}
 	}
 
